@@ -1,11 +1,32 @@
-(* C20 (partial: dlopen and symbol lookup are not modelled).  ONLY statements closed by `exact`, each followed by Print Assumptions. *)
+(* C20 (partial: dlopen and symbol lookup are not modelled).  ONLY statements closed by `exact`, each followed by Print Assumptions.
+   ModModel.run n g listing is the loader model compared with src/module.c (real daemon + stub modules) on every run. *)
 From Coq Require Import List Arith Bool.
 Import ListNotations.
-Require Import ModModel ModProps.
+Require Import ModModel ModBase ModUnbounded ModAllN ModProps.
 
-(* BOUNDED (the bound is in the statement): for every digraph without self loops on 4 modules (4096 graphs) and four listing orders,
-   the model's run satisfies the C20 monitor: constructed once, dependencies fully constructed first, post-init once and after the
-   dependencies', destructor before the dependencies'; a cyclic graph aborts start-up.  Evaluated inside Coq by vm_compute. *)
+(* For ANY number of modules, any dependency graph g (wfg: dependencies name modules < n) and any listing order:
+   - if start-up aborts (run = None) there is a genuine cycle among the reachable modules;
+   - otherwise there is none, and in the event log every reachable module has exactly one constructor begin, constructor end,
+     post-init and destructor, CB before CE, and for every declared dependency m -> d: CE d before CE m, PI d before PI m
+     (also when d is reachable along two paths), DT m before DT d; unreachable modules are never touched; all constructors come
+     before all post-inits before all destructors. *)
+Theorem load_and_unload_respect_dependencies : forall n g listing, wfg n g -> (forall m, In m listing -> m < n) ->
+  monitor' g listing (run n g listing).
+Proof. exact run_meets_monitor. Qed.
+Print Assumptions load_and_unload_respect_dependencies.
+
+(* the executable monitor (the one the driver evaluates on every graph of the correspondence run) accepts every run, for every n *)
+Theorem executable_monitor_accepts_every_run : forall n g,
+  wfg n g -> (forall m, NoDup (g m)) -> forall listing, (forall m, In m listing -> m < n) -> length listing <= n + 2 -> monitor n g listing = true.
+Proof. exact run_monitor_true. Qed.
+Print Assumptions executable_monitor_accepts_every_run.
+
+(* the exhaustive statement over all digraphs without self loops, for every n (the bounded instance for n = 4 is evaluated inside
+   Coq by vm_compute in ModProps.v and agrees) *)
+Theorem every_graph_every_size : forall n, all_ok n = true.
+Proof. exact all_ok_every_n. Qed.
+Print Assumptions every_graph_every_size.
+
 Theorem dependency_order_respected_up_to_4_modules :
   forall bs, In bs (bits 12) -> forall l, In l (listings 4) -> monitor 4 (graph_of 4 bs) l = true.
 Proof. exact every_graph_on_4_modules. Qed.
